@@ -49,6 +49,10 @@ pub struct Case {
     /// the run is confined to this many CPUs (0: all), as in a 1-2 vCPU container
     #[serde(default)]
     pub cpus: u8,
+    /// every third member of the group only announces its start and exits at once; the others
+    /// still wait for everybody's start
+    #[serde(default)]
+    pub quick_members: bool,
 }
 
 pub fn strategy(max_n: usize) -> impl Strategy<Value = Case> {
@@ -102,6 +106,7 @@ pub fn strategy(max_n: usize) -> impl Strategy<Value = Case> {
                 early_output: if n <= 12 { early_output } else { 0 },
                 undefined_member: gp % 4 == 0,
                 big_args: gp % 5 == 1,
+                quick_members: gp % 3 == 2,
                 cpus: if n <= 16 && !listener {
                     match gp % 7 {
                         3 => 1,
@@ -162,7 +167,10 @@ fn attempt(case: &Case, w: usize, timeout_ms: u64) -> Result<(bool, CaseInfo, Va
             }
             let mut b = Behavior::default();
             if ci == case.barrier_cmd && members.contains(&t.path) {
-                b.barrier = Some((format!("g{}", gi), n_wait, timeout_ms));
+                let mi = members.iter().position(|m| m == &t.path).unwrap_or(0);
+                // (a time-out of 0 means: announce the start, do not wait)
+                let quick = case.quick_members && mi % 3 == 1;
+                b.barrier = Some((format!("g{}", gi), n_wait, if quick { 0 } else { timeout_ms }));
                 b.pre_out_bytes = case.early_output;
             }
             beh.insert((c.clone(), t.path.clone()), b);
@@ -265,6 +273,7 @@ fn attempt(case: &Case, w: usize, timeout_ms: u64) -> Result<(bool, CaseInfo, Va
         .class_if(case.history != 0, "after-an-earlier-run")
         .class_if(case.nofile_per_member > 0, "modest-open-files-limit")
         .class_if(case.cpus > 0, "confined-to-1-2-cpus")
+        .class_if(case.quick_members, "a-third-of-the-members-exit-at-once")
         .class_if(case.early_output > 0, "members-print-more-than-a-pipe-buffer-first")
         .class_if(undefined.is_some(), "one-member-does-not-define-the-command")
         .class_if(case.big_args && !case.shared_exe, "one-member-gets-100KiB-of-arguments")
@@ -322,7 +331,7 @@ pub fn run(ctx: &mut Ctx) {
     ctx.shrink_budget = std::time::Duration::from_secs(1);
     ctx.rule = "layered configuration with one layer of n mutually independent targets (n in 2..24, and the size boundaries 31-34 and 63-66; thorough: up to 130) placed first / in the middle / last, \
 1-3 commands, tokio worker threads in {1,2,4,16}, 30% with a `log tail` listener attached, some small groups with the whole run confined to 1 or 2 CPUs (sched_setaffinity, as in a small container), 30% with one script shared by all targets through commands.definitions; half of the cases after an earlier run of the same commands (all succeeding, all group members failing, or a random part of the group failing); the groups are read from `analyze --target-groups`, one group of size >= 2 is chosen and all its members run the helper in \
-barrier mode (wait until all members have started) under the 1st-3rd command. oracle: run exits 0, every member started, no barrier time-out (20 s, confirmed with 40 s). \
+barrier mode (wait until all members have started; in a third of the cases every third member only announces its start and exits at once) under the 1st-3rd command. oracle: run exits 0, every member started, no barrier time-out (20 s, confirmed with 40 s). \
 non-trivial = group size >= 3; distinct by SHA-256"
         .to_string();
     ctx.assumptions = vec!["'forever' is approximated by 20 s + 40 s for a rendezvous that takes milliseconds".into()];
